@@ -1,15 +1,19 @@
 #!/usr/bin/env python3
 """collect validated seeded changes into /verif/seeded/<id>/ (patch.diff, demo.py, meta.json)"""
 import json, os, re, shutil, sys
-SRC = "/tmp/mut/out"
+SRC = sys.argv[1] if len(sys.argv) > 1 else "/tmp/mut/out"
+VLOG = sys.argv[2] if len(sys.argv) > 2 else "/tmp/seedwt_validate.log"
+ELOG = sys.argv[3] if len(sys.argv) > 3 else "/tmp/seedeval_results.log"
+ROUND = sys.argv[4] if len(sys.argv) > 4 else "1"
 val = {}
-for l in open("/tmp/seedwt_validate.log"):
+for l in open(VLOG):
     m = re.match(r"(C\d+-\d+): baseline_rc=(\d+) demo_on_changed_rc=(\d+) demo_on_unchanged_rc=(\d+)", l)
     if m: val[m.group(1)] = tuple(int(x) for x in m.groups()[1:])
 ev = {}
-for l in open("/tmp/seedeval_results.log"):
+for l in open(ELOG):
     m = re.match(r"(C\d+-\d+) (C\d+) rc=(\d+) :: (.*?) :: (.*)", l)
-    if m: ev[m.group(1)] = {"check": m.group(2), "rc": int(m.group(3)), "first_violation": m.group(4).strip()[:400], "summary": m.group(5).strip()}
+    if m and (m.group(1) not in ev or m.group(2) == m.group(1).split("-")[0]):
+        ev[m.group(1)] = {"check": m.group(2), "rc": int(m.group(3)), "first_violation": m.group(4).strip()[:400], "summary": m.group(5).strip()}
 props = {json.loads(l)["id"]: json.loads(l) for l in open("/verif/properties.jsonl")}
 kept, dropped = [], []
 for mid in sorted(val):
@@ -29,6 +33,7 @@ for mid in sorted(val):
                                 "demo_with_change_exit": mc, "demo_without_change_exit": cl},
             "our_check": {"command": f"VF_REPO=<worktree with the change> ./check {e.get('check')}", "exit": e.get("rc"), "detected": e.get("rc") == 1,
                           "first_violation_line": e.get("first_violation"), "summary": e.get("summary")},
+            "round": int(ROUND),
             "origin": "written by an independent sub-agent that saw only the property text and its own worktree"}
     if os.path.exists(f"{SRC}/{mid}/patch_original.diff"):
         meta["note"] = "the sub-agent's patch was rebased by hand onto the tree after the list-mutator fix (same one-line change: pop() no longer detaches the live list)"
